@@ -250,4 +250,47 @@ def run(ck):
                          {"mode": "asm", "arch": "z80", "source": txx, "expected": w, "harness_case": asm_case("z80", text=txx)})
             if len(ck.violations) >= 3:
                 break
+    # ---------------------------------------------------------------- chained conditionals
+    # C's ?: is right-associative and its middle operand is a full expression: a ? b : c ? d : e and a ? b ? c : d : e
+    # are legal C.  The assembler may refuse an unparenthesised chain with a diagnostic, but if it accepts one the value
+    # must be C's.  (The expression parser model refuses them, like the unchanged implementation.)
+    def chain_text(e, pos):
+        if e[0] == 't':
+            return chain_text(e[1], 'c') + " ? " + chain_text(e[2], 'a') + " : " + chain_text(e[3], 'b') if pos in ('a', 'b', 'top') \
+                else "( " + chain_text(e, 'top') + " )"
+        return X.render(e, rng, True)
+    ccases = []
+    vals = [0, 1, 2, 3, 4, 5, -1]
+    for _ in range(3000 if thorough else 600):
+        def leaf():
+            return ('n', rng.choice(vals)) if rng.random() < 0.7 else X.gen_tree(rng, 1, vals)
+        def tern(d):
+            if d == 0 or rng.random() < 0.3:
+                return leaf()
+            return ('t', leaf(), tern(d - 1) if rng.random() < 0.5 else leaf(), tern(d - 1) if rng.random() < 0.7 else leaf())
+        t = ('t', leaf(), tern(2), tern(2))
+        if not any(x[0] == 't' for x in (t[2], t[3])):
+            continue
+        ccases.append(t)
+    ctexts = []
+    for t in ccases:
+        e = chain_text(t, 'top')
+        ctexts.append("@dw ( %s ) & $ffff , ( ( %s ) >> 16 ) & $ffff\n" % (e, e))
+    c_spec = run_cases(model, ["ceval\t\t%s" % X.prefix(t) for t in ccases])
+    c_impl = [AsmResult(r) for r in run_cases(harness, [asm_case("z80", text=tx) for tx in ctexts])]
+    c_lex = run_cases(harness, ["lex\tz80\t%s\t" % hx(tx) for tx in ctexts])
+    c_mod = run_cases(model, ["masm\tz80\t%s\t\t" % l for l in c_lex])
+    ck.evaluations += len(ccases)
+    for t, tx, sp, r, m in zip(ccases, ctexts, c_spec, c_impl, c_mod):
+        ck.count("chain:" + r.kind)
+        f = sp.split("\t")
+        want = "OK " + le32(int(f[1])).hex() if f[0] == "VAL" else "DIAG"
+        if r.canon() not in ("DIAG", want):
+            ck.violation("assembling the chained conditional %r gives %s, C semantics gives %s" % (tx, r.canon(), want),
+                         {"mode": "asm", "arch": "z80", "source": tx, "expected": want + " (or a diagnostic)", "harness_case": asm_case("z80", text=tx)})
+            break
+        mc = ("OK " + m.split("\t")[1]) if m.startswith("OK") else ("DIAG" if m.startswith("ERR") else "CRASH")
+        if mc != r.canon() and not any(v[2] for v in ck.violations):
+            ck.violation("correspondence parser model vs implementation on the chained conditional %r: model %s impl %s" % (tx, mc, r.canon()),
+                         {"mode": "asm", "correspondence": "ExprParse.pexpr vs Assembler::expr", "source": tx, "harness_case": asm_case("z80", text=tx)}, no_input=True)
     return ck
